@@ -182,7 +182,9 @@ impl StateSpace for SO3StateSpace {
         let (center_rotation, max_angle) = &self.bounds;
         let deviation = self.distance(center_rotation, state);
 
-        deviation <= *max_angle
+        // The angle comes from an acos near 1 and a state projected onto the cone boundary by
+        // enforce_bounds lands on it only up to rounding, hence the tolerance.
+        deviation <= *max_angle + 1e-7
     }
 
     /// Generates a uniformly random rotation within the defined bounds.
